@@ -58,6 +58,20 @@ def w_hosvd(ctx, rng, idx):
     thr = [1e-8, 1e-10, 1e-2][int(rng.integers(0, 3))]
     npairs = int(rng.integers(1, 4))
     pairs = [index_sets(rng, m) for _ in range(npairs)]
+    u = rng.random()
+    if npairs > 1 and u < 0.35:
+        # consecutive pairs sharing their x-index set (a lag scan over a fixed window: same array object or an equal copy),
+        # a pair repeated verbatim, or x and y exchanged: what is kept from the previous pair must not leak into the next
+        k = int(rng.integers(1, npairs))
+        mode = int(rng.integers(0, 4))
+        if mode == 0:
+            pairs[k] = (pairs[k - 1][0], rng.permutation(pairs[k - 1][1]) if len(pairs[k - 1][1]) == len(pairs[k - 1][0]) else pairs[k - 1][1])
+        elif mode == 1:
+            pairs[k] = (np.array(pairs[k - 1][0], copy=True), np.array(pairs[k - 1][1], copy=True)[::-1].copy())
+        elif mode == 2:
+            pairs[k] = pairs[k - 1]
+        else:
+            pairs[k] = (pairs[k - 1][1], pairs[k - 1][0])
     xs, ys = [p[0] for p in pairs], [p[1] for p in pairs]
     ctx.describe({'op': 'amuset_hosvd', 'd': d, 'm': m, 'modes': [[type(f).__name__ for f in fl] for fl in bl], 'threshold': thr, 'pairs': [[list(map(int, a)), list(map(int, b))] for a, b in pairs]})
     okb, rb = call('tedmd.amuset_hosvd', te.amuset_hosvd, Z, xs, ys, bl, prop=P, tags=['batch'], refusals=(np.linalg.LinAlgError,), threshold=thr)
@@ -95,6 +109,19 @@ def w_hocur(ctx, rng, idx):
                    refusals=(np.linalg.LinAlgError,), multiplier=mult)
     if okb and npairs > 1:
         ctx.check('tedmd.amuset_hocur', 'batch_results_are_distinct_objects', len(set(id(t) for t in rb[1])) == npairs, [], {'pairs': npairs}, prop=P)
+        # batch == single calls (the cross approximation starts from a deterministic column choice, so both runs are comparable)
+        good, bad = True, None
+        for k in range(npairs):
+            oks, rs = call('tedmd.amuset_hocur', te.amuset_hocur, Z, xs[k], ys[k], bl, prop=P, tags=['single'], refusals=(np.linalg.LinAlgError,), multiplier=mult)
+            if not oks:
+                good = None
+                break
+            lk, ls = np.asarray(rb[0][k]), np.asarray(rs[0])
+            if lk.shape != ls.shape or not np.allclose(lk, ls, rtol=1e-7, atol=1e-7) or not same_tensor(rb[1][k], rs[1]):
+                good, bad = False, k
+                break
+        if good is not None:
+            ctx.check('tedmd.amuset_hocur', 'batch_equals_single_calls', good, ['pair=%s' % ('first' if bad == 0 else 'later')] if not good else [], {'first_differing_pair': bad, 'pairs': npairs}, prop=P)
 
 
 WORKLOADS = [
